@@ -73,6 +73,10 @@ inductive LvlVal where
   | text (s : String)      -- a string value: parsed directly
   | int (i : Int)          -- any other value: formatted with Display, then parsed
   | bool (b : Bool)
+  | ownedTyped (l : Level) -- a captured Level after `Value::to_owned()`: the downcast no longer applies, its
+                           --   Display text ("debug" | "info" | "warn" | "error") is parsed
+  | display (s : String)   -- a Display-only value: formatted, then parsed
+  | ownedText (s : String) -- a string after `to_owned()`: still visited as a string, parsed
   deriving Repr
 
 def LvlVal.cast : LvlVal → Option Level
@@ -80,6 +84,9 @@ def LvlVal.cast : LvlVal → Option Level
   | .text s => parseLevel s
   | .int i => parseLevel (toString i)
   | .bool b => parseLevel (if b then "true" else "false")
+  | .ownedTyped l => parseLevel l.display
+  | .display s => parseLevel s
+  | .ownedText s => parseLevel s
 
 /-- first-wins lookup (the default `Props::get`) -/
 def lookupFirst (k : String) : List (String × LvlVal) → Option LvlVal
